@@ -342,6 +342,10 @@ func check(prop string, args []string) int {
 		cfg.MaxPaths = 4000000
 		cfg.Deadline = 12 * time.Minute
 		cfg.XCheckEvery = 50 // every 50th solver answer is re-decided by cvc5
+		// a harness that exhausts its budget has then sampled its whole decision tree
+		// (one pick in four takes a random frontier element) instead of one corner
+		cfg.RandomPick = 0.25
+		cfg.Seed = int64(seed)
 	}
 	if *maxPaths > 0 {
 		cfg.MaxPaths = *maxPaths
@@ -572,6 +576,7 @@ func check(prop string, args []string) int {
 		"unsupported_paths":         totalUnsupported,
 		"bound_hit_paths":           totalBound,
 		"budget_exhausted":          budget,
+		"search_order":              map[bool]string{false: "depth-first over decision prefixes (complete when budget_exhausted is false)", true: "depth-first with one pick in four taken at random from the frontier (seeded); complete when budget_exhausted is false, otherwise a sample of the whole decision tree"}[cfg.RandomPick > 0],
 		"vacuous_obligations":       vacuous,
 		"known_findings_confirmed":  keysB(confirmedFindings),
 		"exhaustive":                !budget && totalUnsupported == 0 && totalBound == 0,
